@@ -187,6 +187,10 @@ Inductive ev :=
 | ERunPF                  (* runPendingFinalizers, first half: run __gc on ExtractPendingFinalize() *)
 | ERunPR                  (* runPendingFinalizers, second half: release ExtractPendingRelease() *)
 | ECloseF                 (* Close / normal CallContext exit: run __gc on ExtractAllMarkedFinalize() *)
+| ERunPFKill (j : nat)    (* runPendingFinalizers in which the finaliser of the (j+1)-th extracted value terminates the
+                             context (out of CPU/memory, killcontext, ...): the finalisers before it have run, it has been
+                             called, the rest of the batch is dropped, ExtractPendingRelease is NOT reached; the panic
+                             unwinds to CallContext's deferred PopContext (= EPop) *)
 | EPop.                   (* PopContext of an isolating context / end of Close:
                              ExtractAllMarkedFinalize() discarded, release ExtractAllMarkedRelease() *)
 
@@ -225,6 +229,15 @@ Definition wstep (w : world) (e : ev) : option world :=
       if closed p then None else
       let '(p', x) := extAF p in
       Some (mkWorld p' (dropped w) (oVals x ++ held w) (armed w) (lost w) (emit Fin (oVals x) (tr w)))
+  | ERunPFKill j =>
+      if closed p then None else
+      let '(p0, x) := extPF p in
+      let ran := firstn (S j) (oVals x) in
+      let '(p1, f) := extAF p0 in
+      let '(p2, y) := extAR p1 in
+      Some (mkWorld p2 (dropped w) (ran ++ held w) (oVals x ++ armed w)
+                    (skipn (S j) (oVals x) ++ oVals f ++ lost w)
+                    (emit Rel (oVals y) (emit Fin ran (tr w))))
   | EPop =>
       if closed p then None else
       let '(p1, f) := extAF p in
